@@ -633,6 +633,11 @@ func c10Instances(add func(*Instance), thorough bool) {
 	for _, pat := range []int{0, 1, 3, 5} {
 		add(&Instance{Func: "VerifC10ValidateSound", Params: P("k", kB, "pat", pat)})
 	}
+	for n := 1; n <= 3; n++ {
+		for skew := 0; skew <= 2; skew++ {
+			add(&Instance{Func: "VerifC10ValidateSound", Params: P("k", 3, "n", n, "skew", skew)})
+		}
+	}
 	// 4. MustReadFrom
 	for _, L := range []int{0, 4, 8, 12, 16, 20} {
 		add(&Instance{Func: "VerifC10Must", Params: P("L", L)})
